@@ -206,7 +206,59 @@ impl QuicMultiplexer {
 
             self.process_pending_socket_messages()?;
             self.remove_closed_connections();
+            #[cfg(trusttunnel_verif)]
+            self.verif_emit_timers();
         }
+    }
+
+    /// Verification hook: the timer bookkeeping at the end of an iteration of the listen loop -
+    /// per connection its deadline here and the connection's own next timeout (both relative to
+    /// now, microseconds), read together with the pending-rearm flag under the connection's lock
+    #[cfg(trusttunnel_verif)]
+    fn verif_emit_timers(&self) {
+        if !crate::verif::is_recording() {
+            return;
+        }
+        let now = Instant::now();
+        let rel = |t: &Instant| -> i64 {
+            if *t >= now {
+                t.duration_since(now).as_micros() as i64
+            } else {
+                -(now.duration_since(*t).as_micros() as i64)
+            }
+        };
+        let mut conns = Vec::new();
+        for (id, conn) in &self.connections {
+            let (qc, flag) = match conn {
+                Connection::Handshake(c) => (c.quic_conn.clone(), None),
+                Connection::Established(c) => (c.quic_conn.clone(), Some(c.rearm_requested.clone())),
+            };
+            let g = qc.lock().unwrap();
+            // (the lock may have been waited for: the connection's timeout is relative to this moment)
+            let waited = Instant::now().duration_since(now).as_micros() as i64;
+            let timeout = g.timeout().map(|d| d.as_micros() as i64 + waited);
+            let rearm = flag.map(|f| f.load(Ordering::Acquire)).unwrap_or(false);
+            let closed = g.is_closed();
+            drop(g);
+            let dl = self.deadlines.get(id).map(&rel);
+            conns.push(format!(
+                "{{\"established\":{},\"closed\":{},\"rearm\":{},\"has_timer\":{},\"timer\":{},\"has_dl\":{},\"dl\":{}}}",
+                matches!(conn, Connection::Established(_)),
+                closed,
+                rearm,
+                timeout.is_some(),
+                timeout.unwrap_or(0),
+                dl.is_some(),
+                dl.unwrap_or(0)
+            ));
+        }
+        crate::verif_emit!(
+            "QMux",
+            "\"has_closest\":{},\"closest\":{},\"conns\":[{}]",
+            self.closest_deadline.is_some(),
+            self.closest_deadline.as_ref().map(&rel).unwrap_or(0),
+            conns.join(",")
+        );
     }
 
     fn read_udp_socket(&mut self) -> io::Result<Option<QuicSocket>> {
